@@ -1,7 +1,7 @@
 (* C10 — FINGERPRINT is the RFC CRC, catches small corruptions, is enforced by the client. Statements only. *)
 From Coq Require Import List NArith Bool.
 Import ListNotations.
-From Rustun Require Import Base.Tlv Crypto.Crc Codec.InputText Codec.Wire Proofs.WireProofs.
+From Rustun Require Import Base.Tlv Crypto.Crc Codec.InputText Codec.Wire Proofs.WireProofs Proofs.CrcBytes.
 Open Scope N_scope.
 
 (* the CRC is CRC-32/ISO-HDLC *)
@@ -33,3 +33,15 @@ Theorem C10_single_byte_error_nonzero : forall n1 n2 v, 0 < v < 256 ->
 Proof. exact Crc.single_byte_error_nonzero. Qed.
 Print Assumptions C10_crc_detects.
 Print Assumptions C10_single_byte_error_nonzero.
+
+(* at byte level: replacing ANY one byte of a text of any length, at any position, by a different byte (in particular any
+   single-bit change) changes the CRC-32 and therefore the FINGERPRINT value; with C10_accept_iff_crc: a message altered in
+   one byte of the covered text while its TLV layout is preserved, or in its FINGERPRINT value, is not accepted *)
+Theorem C10_crc32_single_byte_detected : forall pre x v post,
+  x < 256 -> v < 256 -> x <> v -> crc32 (pre ++ v :: post) <> crc32 (pre ++ x :: post).
+Proof. exact CrcBytes.crc32_single_byte_detected. Qed.
+Theorem C10_fingerprint_single_byte_detected : forall pre x v post,
+  x < 256 -> v < 256 -> x <> v ->
+  N.lxor (crc32 (pre ++ v :: post)) 0x5354554e <> N.lxor (crc32 (pre ++ x :: post)) 0x5354554e.
+Proof. exact CrcBytes.fingerprint_single_byte_detected. Qed.
+Print Assumptions C10_crc32_single_byte_detected.
